@@ -48,6 +48,20 @@ func generate() {
 	}
 	run.Exhaust = false // the string space is infinite; the finite sweeps above are complete
 
+	// ---- exhaustive, under an ini file that names the tables (child process per ini variant) ------------------
+	for _, variant := range []string{"d", "m"} {
+		var inner []string
+		for a := 0; a < 256; a++ {
+			for b := 0; b < 256; b++ {
+				inner = append(inner, "b2u "+hx.Hex([]byte{byte(a), byte(b)}))
+			}
+		}
+		for cp := 0x80; cp <= 0xFFFF; cp++ {
+			inner = append(inner, "u2b "+hx.Hex(encGen(cp)))
+		}
+		doCfgSweep(variant, inner)
+	}
+
 	// ---- structured strings ------------------------------------------------------------------------
 	var mapped, mutual []uint16
 	for k := range ref.b2u {
